@@ -340,6 +340,8 @@ class Gen:
         if k == "unop":
             u = r.choice(["-", "!", "~", "*", "&", "++", "--", "+"] if env.get("side") else ["-", "!", "~", "*", "&", "+"])
             p = self.prim_simple(env)
+            if u in ("++", "--") and not env["vars"]:
+                u = "-"
             if u in ("++", "--"):
                 return ([Slot("incdec", u)] + p) if r.random() < 0.5 else (p + [Slot("incdec", u)])
             return [Slot("unop1", u)] + p
@@ -558,7 +560,14 @@ class Gen:
                 # do not cut a block open
                 while body and self._open_blocks(body):
                     body.pop()
-            body.append(Line(["\t", "return ("] + self.expr(env, 0) + [");"], "stmt", 1, idx, stmt="return"))
+            env["side"] = False
+            for _ in range(20):
+                rp = ["return ("] + self.expr(env, 0) + [");"]
+                if self.fits(rp, 1):
+                    break
+            else:
+                rp = ["return (0);"]
+            body.append(Line(["\t"] + rp, "stmt", 1, idx, stmt="return"))
         lines += body
         lines.append(Line(["}"], "func_close", 0, idx))
         # the signature must fit too
@@ -730,6 +739,7 @@ MICRO_TEMPLATES = [
     "x = a{I};", "{I}a;", "a{I};", "x = sizeof(int) {B} a;", "x = s->b {B} {U}t.d;", "x = *p {B} {U}*q;",
     "x = a {B} b {B} c;", "x = a {B} ({U}b {B} c);", "x = f(a) {B} {U}g(b);", "x = a[b] {B} {U}p[c];",
     "x = a {B} {U}(b);", "x = (int *){U}a;", "x = (t_s *){C};", "x = a {B} {U}f(b);",
+    "f(a{I} {B} b);", "return (a{I} {B} b);", "f({I}a {B} b);",
     "x = {N} {B} {U}{N};", "x = {U}{N};", "return ({U}{N});", "x = (a {B} b);", "x = (int)(a {B} b);",
 ]
 MICRO_CTRL = ["if (a {B} {U}b)", "while (a {B} b {B} {U}c)", "if ({U}a)", "if ((a {B} b) {B} c)", "while ({U}f(a) {B} b)"]
